@@ -20,7 +20,7 @@ for d in sorted(os.listdir(os.path.join(HERE, "seeded"))):
     what = m.get("summary") or notes
     caught = []
     for r in m.get("ran", []):
-        c = re.search(r"check (C\d+)", r["cmd"]).group(1)
+        c = re.search(r"check (C\d+)", r["cmd"]).group(1).replace("C17L", "C17")
         if r["exit"] == 1:
             sig = ""
             for l in r.get("violation_lines", []):
